@@ -411,7 +411,9 @@ pub fn gen_tree(rng: &mut Rng, docs: &mut Docs) -> Tree {
         let mut dir = rng.pick(&dirs).clone();
         if rng.chance(0.04) {
             // a long chain of directories (a walk with a depth limit would stop short)
-            for k in 0..rng.range(6, 14) {
+            // (now and then far deeper than any "reasonable" limit: 33..257 levels)
+            let levels = if rng.chance(0.15) { *rng.pick(&[33usize, 65, 101, 129, 257]) } else { rng.range(6, 14) };
+            for k in 0..levels {
                 dir = join(&dir, &format!("l{}", k));
                 tree.insert(dir.clone(), Node::Dir);
             }
